@@ -96,6 +96,10 @@ PeerReset ==   \* the connection is reset: nothing more arrives, reads see the e
   /\ ~peerFin /\ peerFin' = TRUE /\ wdead' = TRUE /\ transit' = 0 /\ rx' = 0 /\ out' = NoOut
   /\ UNCHANGED <<isReq, st, sock, stream, raw, nid, evq, slot, uq, gen, artim, dec, user, ended>>
 
+PeerDeaf ==    \* the peer stops receiving (half-dead connection): nothing changes for reads, the next write fails
+  /\ ~wdead /\ wdead' = TRUE /\ out' = NoOut
+  /\ UNCHANGED <<isReq, st, sock, stream, transit, rx, raw, peerFin, nid, evq, slot, uq, gen, artim, dec, user, ended>>
+
 Tick ==     \* enough time passes for a running ARTIM to be past its limit
   /\ artim = "run" /\ artim' = "exp" /\ out' = NoOut
   /\ UNCHANGED <<isReq, st, sock, stream, transit, rx, raw, peerFin, wdead, nid, evq, slot, uq, gen, dec, user, ended>>
